@@ -20,7 +20,8 @@ import pilio
 import compile_check
 
 LEVEL = "proof"
-LEVEL_NOTE = "DES semantics (structure line fixes pairs, assignment line lays sequences onto it) is the reading of NUPACK's .des used by the oracle and the theorem"
+LEVEL_NOTE = ("DES semantics (structure line fixes pairs, assignment line lays sequences onto it) is the reading of NUPACK's .des used by the oracle and the theorem; "
+              "des_equiv is proved relative to the decidable table condition BlocksOk and the table design designOf, both evaluated on every accepted program (see des_equiv_partial)")
 replay = compile_check.replay
 
 
